@@ -1,4 +1,162 @@
-(* C33 — placeholder while the model is being tied; replaced by the theorem file. *)
-From WK Require Import Base.Base Model.Presence.
-Example c33_stub : d_touch (NewDirectory 0) = 0.
-Proof. reflexivity. Qed.
+(* C33 — Presence routing is fenced by slot authority.
+   Statements only; each is closed by [exact] of a lemma of Proof/Presence*.v.
+   Model: Model/Presence.v (internal/runtime/presence/{directory,expiry_index,types}.go).
+
+   [reachable d]: d is the directory after some sequential history of API calls
+   on a fresh directory (any local node id). *)
+From WK Require Import Base.Base Gen.Consts_C33 Model.Presence.
+From WK Require Import Proof.Presence_ops Proof.Presence_dir Proof.Presence Proof.Presence_mon.
+From Coq Require Import Permutation Sorted.
+Open Scope N_scope.
+
+(* validateTargetLocked fails exactly when the target names another leader than
+   the local node, or no authority is installed for the hash slot, or the
+   installed identity differs in hash slot / slot id / leader / term / config epoch *)
+Theorem c33_fence_condition : forall d g,
+  validateTargetLocked d g = None <->
+  (d_local d <> 0 /\ g_leader g <> d_local d)
+  \/ al_get N.eqb (g_hs g) (d_slots d) = None
+  \/ exists s, al_get N.eqb (g_hs g) (d_slots d) = Some s
+               /\ (g_hs (sl_target s) <> g_hs g \/ g_slot (sl_target s) <> g_slot g \/ g_leader (sl_target s) <> g_leader g
+                   \/ g_term (sl_target s) <> g_term g \/ g_epoch (sl_target s) <> g_epoch g).
+Proof.
+  intros d g. rewrite validate_none_iff. split; (intros [H|[H|[s [H1 H2]]]]; [left; exact H|right; left; exact H|]);
+    right; right; exists s; (split; [exact H1|]); apply sameAuthorityIdentity_false; exact H2.
+Qed.
+Print Assumptions c33_fence_condition.
+
+(* every targeted call (register, commit, abort, unregister, touch, lookups) whose
+   target is not the installed authority returns ErrNotLeader, returns nothing
+   else, and leaves the whole directory unchanged — in every state *)
+Theorem c33_fenced : forall d o g,
+  op_target o = Some g -> validateTargetLocked d g = None ->
+  fst (step d o) = d /\ out_err (snd (step d o)) = Some ENotLeader
+  /\ match snd (step d o) with
+     | RRegister _ tok acts => tok = 0 /\ acts = []
+     | RRoutes _ rs => rs = []
+     | _ => True
+     end.
+Proof. exact fenced. Qed.
+Print Assumptions c33_fenced.
+
+(* the same per group of EndpointsByTargets (which never changes state) *)
+Theorem c33_fenced_group : forall d gs i g uids,
+  nth_error gs i = Some (g, uids) -> validateTargetLocked d g = None ->
+  nth_error (EndpointsByTargets d gs) i = Some (ENotLeader, []).
+Proof. exact fenced_groups. Qed.
+Print Assumptions c33_fenced_group.
+
+(* after an accepted UnregisterRoute(id, q) — any q, zero included — and for as
+   long as the authority identity of that hash slot lasts (no LoseAuthority of the
+   slot, no BecomeAuthority with a different identity), whatever is registered,
+   committed or touched, id is active only with an owner sequence above q.
+   (A new authority identity clears the fences by design.) *)
+Theorem c33_tombstone : forall d g k q ops,
+  reachable d -> validateTargetLocked d g <> None ->
+  let d1 := fst (UnregisterRoute d g k q) in
+  forall s1, al_get N.eqb (g_hs g) (d_slots d1) = Some s1 ->
+  tenure_lasts (g_hs g) (sl_target s1) ops ->
+  forall s2 r, al_get N.eqb (g_hs g) (d_slots (fst (run d1 ops))) = Some s2 ->
+               al_get ikey_eqb k (sl_active s2) = Some r -> q < r_oseq r.
+Proof. exact tombstone. Qed.
+Print Assumptions c33_tombstone.
+
+(* invariant form: no active route sits at or below its identity's fence *)
+Theorem c33_active_above_fence : forall d hs s k r t,
+  reachable d -> al_get N.eqb hs (d_slots d) = Some s -> al_get ikey_eqb k (sl_active s) = Some r ->
+  al_get ikey_eqb k (sl_tomb s) = Some t -> t < r_oseq r.
+Proof. exact active_above_fence. Qed.
+Print Assumptions c33_active_above_fence.
+
+(* ExpireRoutesDetailed(now, ttl) removes from every slot exactly the active
+   routes with a set activity second s such that s + ttl < now (strictly; nothing
+   when ttl <= 0 or now is the zero time), keeps the others unchanged and in
+   place, and keeps authorities and fences *)
+Theorem c33_expire_exact : forall d nowS nowN ttl,
+  reachable d ->
+  let d' := fst (ExpireRoutesDetailed d nowS nowN ttl) in
+  forall hs, match al_get N.eqb hs (d_slots d), al_get N.eqb hs (d_slots d') with
+             | Some s, Some s' =>
+               sl_active s' = filter (fun kr : ikey * route => negb (route_due nowS nowN ttl (snd kr))) (sl_active s)
+               /\ sl_target s' = sl_target s /\ sl_tomb s' = sl_tomb s
+             | None, None => True
+             | _, _ => False
+             end.
+Proof. exact expire_exact. Qed.
+Print Assumptions c33_expire_exact.
+
+(* lookups: for every slot of a reachable directory the routes returned for a uid
+   are exactly the active routes of that uid, strictly increasing in
+   (uid, session, node, boot) — hence without duplicates and independent of map order *)
+Theorem c33_lookup_sorted : forall d hs s u,
+  reachable d -> al_get N.eqb hs (d_slots d) = Some s ->
+  Permutation (endpointsByUIDLocked s u)
+              (map snd (filter (fun kr : ikey * route => r_uid (snd kr) =? u) (sl_active s)))
+  /\ StronglySorted (fun a b => lessIdentityKey (makeRouteIdentityKey a) (makeRouteIdentityKey b) = true)
+                    (endpointsByUIDLocked s u).
+Proof.
+  intros d hs s u R G. apply endpoints_sorted. apply (di_slots d (reachable_inv d R) hs s G).
+Qed.
+Print Assumptions c33_lookup_sorted.
+
+(* a pending route is promoted only if every route that conflicts with it at
+   commit time was acknowledged when it was registered *)
+Theorem c33_conflict_commit : forall s tok s',
+  commitRouteLocked s tok = (s', EOk) ->
+  exists r acked, al_get N.eqb tok (sl_pending s) = Some (r, acked)
+                  /\ forall ck, In ck (conflictsLocked s r) -> In ck acked.
+Proof. exact conflict_commit. Qed.
+Print Assumptions c33_conflict_commit.
+
+(* the monitor evaluated on implementation traces accepts every trace of the model *)
+Theorem c33_model_satisfies_monitor : forall localNode shards ops final,
+  C33_monitor (C33Case localNode shards (encode_steps (snd (run (NewDirectory localNode) ops))) final) = 0.
+Proof. exact model_satisfies_monitor. Qed.
+Print Assumptions c33_model_satisfies_monitor.
+
+(* ---- non-vacuity -------------------------------------------------------------------------- *)
+Definition ex_g : target := Tg 1 1 1 2 1 1 0.
+Definition ex_r (sess oseq : N) (seen : Z) : route := Rt 1 1 1 oseq sess 1 0 0 0 1000 seen.
+Definition ex_ops : list op :=
+  [ OBecome ex_g;
+    ORegister ex_g (ex_r 2 3 0);
+    ORegister (Tg 1 1 1 1 1 1 0) (ex_r 1 1 0);          (* stale term: fenced *)
+    ORegister ex_g (ex_r 1 1 1002);
+    OLookup ex_g [1];
+    OUnregister ex_g (1, 1, 1, 1) 4;
+    OTouch ex_g [ex_r 1 4 1003; ex_r 1 5 1004];          (* at the fence: ignored; above: recreated *)
+    OExpire 1003 1 3000000000;                           (* 1000 + 3 s < 1003.000000001: the first route goes *)
+    OLookup ex_g [1] ].
+
+Example c33_example_history :
+  map (fun s => snd (fst s)) (snd (run (NewDirectory 1) ex_ops))
+  = [ RUnit; RRegister EOk 0 []; RRegister ENotLeader 0 []; RRegister EOk 0 [];
+      RRoutes EOk [ex_r 1 1 1002; ex_r 2 3 1000]; RErr EOk; RErr EOk; RExpire 1 1 1 1 1;
+      RRoutes EOk [ex_r 1 5 1004] ]
+  /\ C33_monitor (C33Case 1 0 (encode_steps (snd (run (NewDirectory 1) ex_ops))) []) = 0.
+Proof. split; vm_compute; reflexivity. Qed.
+
+(* the monitor is not vacuous: a stale-term register that is accepted, a route
+   revived at its unregister sequence (the defect repaired in /repo 5179e0ee9,
+   sequence 0), a route expired exactly at its deadline and an unsorted lookup
+   are all rejected *)
+Example c33_monitor_rejects :
+  C33_monitor (C33Case 1 0
+    [ (OBecome ex_g, RUnit, None);
+      (ORegister (Tg 1 1 1 1 1 1 0) (ex_r 1 1 0), RRegister EOk 0 [], Some [(1, (1, 1, 1, 1), 1, 1000%Z)]) ] []) = 1
+  /\ C33_monitor (C33Case 1 0
+    [ (OBecome ex_g, RUnit, None);
+      (ORegister ex_g (ex_r 1 0 0), RRegister EOk 0 [], Some [(1, (1, 1, 1, 1), 0, 1000%Z)]);
+      (OUnregister ex_g (1, 1, 1, 1) 0, RErr EOk, Some []);
+      (OTouch ex_g [ex_r 1 0 1001], RErr EOk, Some [(1, (1, 1, 1, 1), 0, 1001%Z)]) ] []) = 1
+  /\ C33_monitor (C33Case 1 0
+    [ (OBecome ex_g, RUnit, None);
+      (ORegister ex_g (ex_r 1 1 0), RRegister EOk 0 [], Some [(1, (1, 1, 1, 1), 1, 1000%Z)]);
+      (OExpire 1003 0 3000000000, RExpire 1 1 1 0 0, Some []) ] []) = 1
+  /\ C33_monitor (C33Case 1 0
+    [ (OBecome ex_g, RUnit, None);
+      (ORegister ex_g (ex_r 2 1 0), RRegister EOk 0 [], Some [(1, (1, 1, 1, 2), 1, 1000%Z)]);
+      (ORegister ex_g (ex_r 1 1 0), RRegister EOk 0 [],
+       Some [(1, (1, 1, 1, 1), 1, 1000%Z); (1, (1, 1, 1, 2), 1, 1000%Z)]);
+      (OLookup ex_g [1], RRoutes EOk [ex_r 2 1 1000; ex_r 1 1 1000], None) ] []) = 1.
+Proof. repeat split; vm_compute; reflexivity. Qed.
